@@ -6,7 +6,7 @@ explicit, every note carries its symbolic duration - so the expected result of l
 from fractions import Fraction
 
 FEATURES = ["pickup", "chord", "two_voices", "two_staves", "tie_barline", "tie_chain", "tie_cross_voice", "grace", "grace_chain", "grace_run_below", "underfilled_measures", "slur", "slur_chain", "slur_overlap", "slur_barline",
-            "tuplet", "dynamics", "wedge", "wedge_overlap", "dashes", "words", "words_quantified", "constant_directions_of_three_families", "pedal", "pedal_barline", "tempo", "tempo_mid", "repeat", "ending", "fermata_note", "fermata_barline", "fermata_inner_barline",
+            "tuplet", "dynamics", "wedge", "wedge_overlap", "dashes", "words", "words_quantified", "constant_directions_of_three_families", "pedal", "pedal_barline", "tempo", "tempo_mid", "repeat", "repeat_inside_measures", "ending", "fermata_note", "fermata_barline", "fermata_inner_barline",
             "articulation", "articulation_order", "fingering", "stem", "unpitched", "rests", "key_change", "ts_change", "clef_change", "divisions_change",
             "divisions_change_mid", "dotted", "page", "two_parts", "group", "nested_group", "nested_group_first", "voice_gap", "polyphony", "polyphony_two_voices", "polyphony_with_voices_1_and_3",
             "measure_names", "irregular_measure", "accidentals", "duplicate_ids"]
@@ -295,6 +295,9 @@ def build(features, pid="P1", seed=0):
     if "tempo_mid" in f:
         part.add(sc.Tempo(72, "q"), B.t(m2 + 1))
     # ---- repeats, endings, fermatas
+    if "repeat_inside_measures" in f:
+        # a repeat that begins in the middle of the first full measure and ends in the middle of the last one, where the long last note of voice 1 sounds across the sign
+        part.add(sc.Repeat(), B.t(m1 + 2), B.t(m3 + 2))
     if "repeat" in f and "ending" not in f:
         part.add(sc.Repeat(), B.t(m1), B.t(m3))
     if "ending" in f:
@@ -382,6 +385,7 @@ def catalogue(tier="quick"):
         ("tuplet_that_starts_in_voice_3_and_ends_in_voice_1", ["tuplet_cross_voice"]),
         ("polyphony_ties", ["polyphony", "tie_barline", "tie_cross_voice", "two_staves"]),
         ("two_staves_hairpin_and_words_on_the_lower_staff", ["two_staves", "wedge", "constant_directions_of_three_families", "dynamics"]),
+        ("two_voices_repeat_signs_inside_measures", ["two_voices", "repeat_inside_measures"]),
         ("underfilled_measures_in_two_parts_with_a_pickup", ["pickup", "underfilled_measures", "group"]),
     ]
     out += combos
